@@ -370,15 +370,7 @@ def run(facts, rep, tier, ctx):
     rep.floor("poll_next typestate obligations", n, 12)
     # R15.5 the async writer publishes on flush like the sync writer (R04.1) — and on drop
     n = h.writer_rules(A, "R04.1", "R14.5", "R19.2")
-    pf = None
-    for b in facts.bodies:
-        if b.impl and b.impl["self_ty"] == h.writer and b.name in ("poll_flush", "poll_close") and b.kind != "Closure":
-            reach = D.inter.reachable([b], through_dyn=False)
-            ins = any(s.short == "HashMap::insert" for rb in reach.values() for s in D.inter.sites(rb))
-            if b.name == "poll_flush":
-                rep.ob("R15.5", b.id, "async writer publishes its buffer on flush (like the sync writer)", ins, "" if ins else
-                       "poll_flush only flushes the private cursor: data flushed through a still-open async handle is not visible to "
-                       "readers opened afterwards (the sync writer publishes on flush)", b.span)
+    h.flush_publishes(rep, "R15.5")
     n = twin_rules(facts, rep, D)
     rep.floor("twin pairs compared", n, 70)
     rep.assume("executor-level behaviour (wake-ups delivered) and async_std::fs vs std::fs agreement are trusted")
